@@ -36,6 +36,7 @@ CONSTANTS
                     \* "sim": cooperative until simulation depth HostileFrom
     HostileBudget, HostileFrom,
     MaxSleeps,      \* passages of real time per behaviour (keeps a replayed behaviour far below the 10 s timers)
+    ParMode,        \* TRUE: a behaviour may end with two entry points of a connection called at the same time (ParStep)
     EmitMode,       \* "none" | "edge" (every edge, BFS) | "final" (whole behaviour at depth SimDepth, -simulate)
     SimDepth
 
@@ -48,9 +49,10 @@ DefectNames == {"proposalNoReturn",   \* hs_prot.go: ServerListenProposal contin
 ASSUME Defects \subseteq DefectNames
 Has(d) == d \in Defects
 
-VARIABLES E, net, failBudget, userDone, approvedPending, approvedAny, cancelled, userClosed, faults, hb, sleeps, acc, viol, lastAct, hist
+VARIABLES E, net, failBudget, userDone, approvedPending, approvedAny, cancelled, userClosed, faults, hb, sleeps, acc, viol, lastAct, hist,
+          parDone      \* a ParStep was taken: the behaviour ends there
 
-vars == <<E, net, failBudget, userDone, approvedPending, approvedAny, cancelled, userClosed, faults, hb, sleeps, acc, viol, lastAct, hist>>
+vars == <<E, net, failBudget, userDone, approvedPending, approvedAny, cancelled, userClosed, faults, hb, sleeps, acc, viol, lastAct, hist, parDone>>
 
 Peer(e) == CHOOSE p \in Endpoints : p # e
 
@@ -83,6 +85,7 @@ B(b) == IF b THEN "T" ELSE "F"
 InitRec(e) ==
     [ role |-> RoleOf[e], st |-> "InitStart", ran |-> FALSE,
       tRun |-> FALSE, tType |-> "WFR", tLeft |-> 0, fires |-> 0, lastWaiting |-> FALSE,
+      tSame |-> FALSE,      \* only inside a ParStep: the timer that was armed when the step began is still the armed one
       reader |-> FALSE, buf |-> <<>>,
       stored |-> Stored0[e], myId |-> MyId[e],
       wsOpen |-> TRUE, errPending |-> FALSE, late |-> 0, once |-> FALSE, cl |-> FALSE, reported |-> FALSE,
@@ -94,8 +97,8 @@ InitRec(e) ==
 
 (*************************** primitive effects **********************************)
 Ev(r, k, v) == [r EXCEPT !.ev = Append(@, [k |-> k, v |-> v])]
-StopT(r)    == [r EXCEPT !.tRun = FALSE]
-Arm(r, ty, d) == [r EXCEPT !.tRun = TRUE, !.tType = ty, !.tLeft = d]
+StopT(r)    == [r EXCEPT !.tRun = FALSE, !.tSame = FALSE]
+Arm(r, ty, d) == [r EXCEPT !.tRun = TRUE, !.tType = ty, !.tLeft = d, !.tSame = FALSE]
 
 \* timer side effects of setState
 TimerAfter(r, S) ==
@@ -573,6 +576,59 @@ Nop == /\ GenMode = "sim"
        /\ Spend(FALSE)
        /\ UNCHANGED <<failBudget, userDone, approvedPending, approvedAny, cancelled, userClosed, faults>>
 
+\* ------------------------------------------------------------------ two entry points at the same time (ParMode)
+\* The read pump (a message), the timer goroutine (an expiry), user goroutines (approve, cancel, close) and the pumps' error
+\* report enter the connection without a common lock.  ParStep calls two of them "at the same time": the model computes
+\* both sequential orders - what an implementation with atomic entry points could show - the harness starts both calls on
+\* the real connection from two goroutines.  The shared formulas judge whatever the real connection did; an outcome that
+\* matches neither order is reported as nonconformance.
+ParCallsOf(r) ==
+    {[k |-> "Inject", m |-> m] : m \in {x \in Coop(r) : x.t # "data" \/ r.nInj < MaxData}}
+    \cup (IF r.tRun /\ ~UnitsSlipCorner(r) THEN {[k |-> "Timeout"]} ELSE {})
+    \cup (IF r.role = "server" /\ ~userDone THEN {[k |-> "Approve"], [k |-> "Cancel"]} ELSE {})
+    \cup (IF ~r.once THEN {[k |-> "Close", safe |-> TRUE], [k |-> "Close", safe |-> FALSE]} ELSE {})
+    \cup (IF r.wsOpen THEN {[k |-> "ConnErr"]} ELSE {})
+POrd(c) == CASE c.k = "Inject" -> 1 [] c.k = "Timeout" -> 2 [] c.k = "Approve" -> 3 [] c.k = "Cancel" -> 4 [] c.k = "Close" -> 5 [] OTHER -> 6
+ParMsg(r, c) == IF c.m.t = "data" THEN MData("d" \o ToString(r.nInj + 1)) ELSE c.m
+\* one call on record r (the same record transformations as the actions above)
+Call(r, c, r0) ==
+    IF ~Alive(r) THEN r
+    ELSE CASE c.k = "Inject" ->
+                IF ~r.wsOpen THEN r       \* the websocket delivers nothing once it is closed
+                ELSE Settle(Push([r EXCEPT !.nInj = IF c.m.t = "data" THEN @ + 1 ELSE @], <<[k |-> "Hm", m |-> ParMsg(r0, c)]>>))
+           [] c.k = "Timeout" ->
+                \* the timer's goroutine reports only if it is still the armed timer and was not stopped
+                IF r.tRun /\ r.tSame
+                THEN Settle(Push([r EXCEPT !.tRun = FALSE, !.tSame = FALSE, !.fires = IF @ < 3 THEN @ + 1 ELSE @], <<[k |-> "Ht"]>>))
+                ELSE r
+           [] c.k = "Approve" ->
+                LET q == [r EXCEPT !.paired = TRUE, !.allowWait = TRUE]
+                IN  IF q.st = "PendingListen" /\ ~Guarded(q)
+                    THEN Settle(Push(Rep(StopT(q), "ReadyInit"), <<[k |-> "H"], [k |-> "Approve2"]>>)) ELSE q
+           [] c.k = "Cancel" ->
+                LET q == [r EXCEPT !.paired = FALSE]
+                IN  IF q.st \in {"PendingListen", "ReadyListen"} /\ ~Guarded(q) THEN Settle(NextH(Rep(StopT(q), "Abort"))) ELSE q
+           [] c.k = "Close" -> IF r.once THEN r ELSE CloseConn(r, c.safe, IF c.safe THEN "4500" ELSE "4001")
+           [] OTHER -> IF r.wsOpen THEN ConnErr([r EXCEPT !.wsOpen = FALSE]) ELSE r
+CDesc(r, c) == [k |-> c.k,
+                m |-> IF c.k = "Inject" THEN MStr(ParMsg(r, c)) ELSE IF c.k = "Close" THEN B(c.safe) ELSE "",
+                id |-> IF c.k = "Inject" THEN MId(ParMsg(r, c)) ELSE ""]
+ParOutcome(r0, c1, c2) == [Call(Call(r0, c1, r0), c2, r0) EXCEPT !.tSame = FALSE]
+ParStep(e) ==
+    /\ ParMode /\ ~Pair /\ Alive(E[e]) /\ E[e].ran /\ ~E[e].annBusy /\ E[e].wsOpen /\ ~E[e].errPending /\ E[e].failAt = 0
+    /\ \E c1 \in ParCallsOf(Clr[e]), c2 \in ParCallsOf(Clr[e]) :
+          /\ POrd(c1) < POrd(c2)
+          /\ LET r0 == [Clr[e] EXCEPT !.tSame = TRUE]
+             IN  Apply(e, ParOutcome(r0, c1, c2),
+                       [a |-> "Par", e |-> e, m |-> "", id |-> "", c1 |-> CDesc(r0, c1), c2 |-> CDesc(r0, c2), raw |-> <<c1, c2>>])
+          /\ userDone' = (userDone \/ c1.k \in {"Approve", "Cancel"} \/ c2.k \in {"Approve", "Cancel"})
+    /\ Spend(FALSE)
+    /\ UNCHANGED <<failBudget, approvedPending, approvedAny, cancelled, userClosed, faults>>
+\* the other order of the two calls: the second outcome a sequential implementation could show
+ParAlt == LET e  == lastAct'.e
+              r0 == [Clr[e] EXCEPT !.tSame = TRUE]
+          IN  ParOutcome(r0, lastAct'.raw[2], lastAct'.raw[1])
+
 (*************************** judging the step with the shared formulas ***********)
 ObOf(r) == [st |-> r.st, tRun |-> r.tRun, wsOpen |-> r.wsOpen, buf |-> Len(r.buf), ev |-> r.ev, panicked |-> r.panicked, hung |-> r.deadlocked]
 
@@ -592,16 +648,20 @@ Expect(r) == [ st |-> r.st, tRun |-> r.tRun, tType |-> r.tType, lw |-> r.lastWai
 Pend(r) == [i \in 1..Len(r.pending) |-> r.pending[i].k]
 \* "final" (one line per simulated behaviour): every step carries the full expectation; "edge" (one line per edge):
 \* earlier steps only carry what the harness needs to pace real time, the last step carries the expectation
+ActOut(a) == IF a.a = "Par" THEN [a |-> a.a, e |-> a.e, m |-> a.m, id |-> a.id, c1 |-> a.c1, c2 |-> a.c2] ELSE a
 Step == IF EmitMode = "edge"
-        THEN [a |-> lastAct', p |-> [e \in Endpoints |-> Pend(E'[e])]]
-        ELSE [a |-> lastAct', x |-> [e \in Endpoints |-> Expect(E'[e])], n |-> [e \in Endpoints |-> Len(net'[e])]]
-Last == [x |-> [e \in Endpoints |-> Expect(E'[e])], n |-> [e \in Endpoints |-> Len(net'[e])]]
+        THEN [a |-> ActOut(lastAct'), p |-> [e \in Endpoints |-> Pend(E'[e])]]
+        ELSE [a |-> ActOut(lastAct'), x |-> [e \in Endpoints |-> Expect(E'[e])], n |-> [e \in Endpoints |-> Len(net'[e])]]
+Last == IF lastAct'.a = "Par"
+        THEN [x |-> [e \in Endpoints |-> Expect(E'[e])], n |-> [e \in Endpoints |-> Len(net'[e])],
+              alt |-> [e \in Endpoints |-> Expect(IF e = lastAct'.e THEN ParAlt ELSE E'[e])]]
+        ELSE [x |-> [e \in Endpoints |-> Expect(E'[e])], n |-> [e \in Endpoints |-> Len(net'[e])]]
 
 Init == /\ E = [e \in Endpoints |-> InitRec(e)]
         /\ net = [e \in Endpoints |-> <<>>]
         /\ failBudget = MaxFail /\ userDone = FALSE /\ approvedPending = FALSE /\ approvedAny = FALSE /\ cancelled = FALSE
         /\ userClosed = FALSE /\ faults = FALSE
-        /\ hb = HostileBudget /\ sleeps = 0
+        /\ hb = HostileBudget /\ sleeps = 0 /\ parDone = FALSE
         /\ acc = [e \in Endpoints |-> Acc0(RoleOf[e], Paired0[e] \/ Auto0[e])]
         /\ viol = {}
         /\ lastAct = Act("init", "", "", "")
@@ -615,8 +675,11 @@ Env == \/ Tick \/ Sleep \/ Nop
            \/ \E k \in 1..3 : ArmWriteFailure(e, k)
            \/ \E b \in BOOLEAN : SetAllowWait(e, b)
            \/ \E m \in AdvMsgs : Inject(e, m)
+           \/ ParStep(e)
 
-Next == /\ Env
+Next == /\ ~parDone
+        /\ Env
+        /\ parDone' = (lastAct'.a = "Par")
         /\ sleeps' = IF lastAct'.a = "Sleep" THEN sleeps + 1 ELSE sleeps
         /\ JudgeAll
         /\ hist' = IF EmitMode = "none" THEN hist ELSE Append(hist, Step)
@@ -631,7 +694,7 @@ EmitViol  == viol' = {} \/ PrintT(<<"MVIOL", ToJson([v |-> viol', act |-> lastAc
 
 (*************************** view: state identity without the step outputs *******)
 RView(r) == [r EXCEPT !.ev = <<>>, !.outbox = <<>>]
-View == <<[e \in Endpoints |-> RView(E[e])], net, failBudget, userDone, approvedPending, approvedAny, cancelled, userClosed, faults, hb, sleeps, acc, viol>>
+View == <<[e \in Endpoints |-> RView(E[e])], net, failBudget, userDone, approvedPending, approvedAny, cancelled, userClosed, faults, hb, sleeps, acc, viol, parDone>>
 
 (*************************** properties ********************************************)
 \* every violation key the shared formulas produce on the model is a known finding
